@@ -46,29 +46,29 @@ Words ==
     fr |-> <<"zéro", "un", "deux", "six", "sept", "neuf", "dix", "onze", "seize", "vingt", "trente", "soixante",
              "quatre-vingt", "quatre-vingts", "cent", "cents", "mille", "million", "milliard", "et", "virgule",
              "premier", "première", "deuxième", "cinquième", "vingtième", "vingt-cinq", "soixante-dix",
-             "quatre-vingt-dix-sept", "plus", "alors", "voilà", "chats", "le", "du", "numéro", "maison">>,
+             "quatre-vingt-dix-sept", "plus", "alors", "voilà", "chats", "le", "du", "numéro", "maison", "millions", "milliards", "une">>,
     es |-> <<"cero", "un", "uno", "una", "dos", "tres", "siete", "nueve", "diez", "once", "quince", "dieciséis",
              "veinte", "veintiuno", "veintidós", "treinta", "cuarenta", "cien", "ciento", "doscientos", "quinientos",
              "mil", "millón", "millones", "y", "coma", "primero", "primera", "segundo", "tercer", "décimo", "vigésimo",
-             "doceavo", "mas", "menos", "son", "gatos", "el", "casa">>,
+             "doceavo", "mas", "menos", "son", "gatos", "el", "casa", "billón", "billones", "mil", "unas">>,
     pt |-> <<"zero", "um", "dois", "duas", "três", "sete", "nove", "dez", "onze", "quinze", "dezasseis", "dezesseis",
              "vinte", "trinta", "cem", "cento", "duzentos", "mil", "milhão", "milhões", "e", "vírgula",
-             "primeiro", "segunda", "terceiro", "décimo", "vigésimo", "mais", "menos", "é", "gatos", "o", "casa">>,
+             "primeiro", "segunda", "terceiro", "décimo", "vigésimo", "mais", "menos", "é", "gatos", "o", "casa", "bilhão", "bilhões", "uma">>,
     it |-> <<"zero", "uno", "un", "una", "due", "tre", "sette", "otto", "nove", "dieci", "undici", "sedici",
              "venti", "ventuno", "trenta", "trentotto", "cento", "mille", "mila", "duemila", "milione", "milioni",
              "miliardo", "e", "virgola", "primo", "seconda", "terzo", "decimo", "ventesimo", "ventitré",
-             "centoventi", "duecento", "più", "meno", "poi", "gatti", "il", "casa">>,
+             "centoventi", "duecento", "più", "meno", "poi", "gatti", "il", "casa", "miliardi", "bilione", "bilioni">>,
     de |-> <<"null", "ein", "eins", "zwei", "drei", "sieben", "neun", "zehn", "elf", "zwölf", "sechzehn",
              "zwanzig", "dreißig", "hundert", "tausend", "million", "millionen", "milliarde", "und", "komma",
              "erste", "zweite", "dritte", "siebte", "zwanzigste", "einundzwanzig", "zweihundert", "dreiundfünfzig",
-             "also", "ja", "katzen", "der", "haus">>,
+             "also", "ja", "katzen", "der", "haus", "billion", "billionen", "milliarden", "eine">>,
     nl |-> <<"nul", "een", "één", "twee", "drie", "zeven", "negen", "tien", "elf", "twaalf", "zestien",
              "twintig", "dertig", "honderd", "duizend", "miljoen", "miljard", "en", "komma",
              "eerste", "tweede", "derde", "twintigste", "eenentwintig", "tweehonderd", "drieënvijftig",
              "plus", "is", "dan", "katten", "de", "huis">> ]
 
 \* separators between words of a generated text
-Seps == <<" ", ", ", ". ", "-", "; ", " - ", "  ", "! ", "- ", " -", "' ", "-, ">>
+Seps == <<" ", ", ", ". ", "-", "; ", " - ", "  ", "! ", "- ", " -", "' ", "-, ", "biljoen", "miljoenen">>
 \* a strong separator (C10): >= 3 ordinary (non-number, non-linking) words ending a sentence
 StrongSep ==
   [ en |-> <<" green cars arrived. ", " went home today. ">>,
@@ -84,7 +84,7 @@ AmbigParts ==
   [ fr |-> <<"le vingt neuf", "du cent neuf", "un logement neuf", "le numéro neuf", "un chat neuf", "le neuf", "du neuf", "un neuf deux",
              "le vingt neuf alors voilà bien", "l'appartement neuf", "du pain neuf dix", "le mille neuf cent",
              "la première", "le premier", "vingt-et-unième", "vingt-et-unièmes", "neuf cents">>,
-    en |-> <<"o one", "the o", "o", "twenty o", "o apples", "one o two", "o eight hundred", "twenty-first", "twenty-firsts", "the fifth", "two fifths">>,
+    en |-> <<"o one", "the o", "o", "twenty o", "o apples", "one o two", "o eight hundred", "twenty-first", "twenty-firsts", "the fifth", "two fifths", "a", "an", "millions", "oh">>,
     es |-> <<"uno dos", "vigésimo primero", "vigésima primera", "vigésimos primeros", "centésimo", "centésima", "un doceavo", "dos doceavos">>,
     pt |-> <<"um dois", "vigésimo primeiro", "vigésima primeira", "vigésimos primeiros", "centésimo", "centésima">>,
     it |-> <<"uno due", "il ventitreesimo giorno", "la ventitreesima volta", "centoventesimo", "centoventesima", "duecentesimi", "duecentesime",
